@@ -120,14 +120,21 @@ def sys_part(ctx, quick):
             name = "c%d-%d.verif.test" % (ctx.vseed, n)
             v6 = alg == "happy_eyeballs" and rng.chance(1, 2)
             resp.table[name] = {"A": addrs, "AAAA": ["::1"] if v6 else []}
-            local = "-"
-            if rng.chance(1, 3):
-                local = "%s:127.0.3.%d:0" % (proto, rng.range(1, 250))
+            local = local_arg = "-"
+            if rng.chance(1, 3) or k in (1, 2):
+                lip4 = "127.0.3.%d" % rng.range(1, 250)
+                local = local_arg = "%s:%s:0" % (proto, lip4)
+                if rng.chance(1, 2) or k in (1, 2):
+                    # the local address given as a DNS name: resolved (asynchronously) alongside the remote name
+                    lname = "l%d-%d.verif.test" % (ctx.vseed, n)
+                    resp.table[lname] = {"A": [lip4], "AAAA": []}
+                    local_arg = "%s:%s:0" % (proto, lname)
+                    ctx.count("sysdns.named_local_addr")
             for a, b in zip(addrs, beh):
                 if b != "refuse":
                     cmds.append("LISTEN %s %d %s" % (a, port, b))
                     exp.append(("L",))
-            cmds.append("CON %s %s %s %d %s 0.25" % (proto, alg, name, port, local if not v6 else "-"))
+            cmds.append("CON %s %s %s %d %s 0.25" % (proto, alg, name, port, local_arg if not v6 else "-"))
             exp.append(("CON", alg, addrs, beh, local if not v6 else "-", proto, v6))
             cmds.append("RESET")
             exp.append(("L",))
